@@ -60,6 +60,7 @@ def run(R):
                      "Exact - is wrong whenever a model has that choice false")
     r7(R)
     r8(R)
+    r9(R)
     R.rule("C08-R6", "search states are not pruned by a partial key: in enumerate_proofs a state taken from the frontier may be dropped through "
                      "a seen-set only if the key covers both what the state has proved so far and what it still has to prove (proof and "
                      "pending) - two states at the same lineage node with the same partial proof can still differ in their remaining conjuncts")
@@ -583,3 +584,63 @@ def r8(R):
         R.ob("C08-R8", "whole-group", "the variables of the exactly-one constraint derive from the group's member list (derive from: %s)" % sorted(labs), ok,
              where=x.where(c.ln), detail=None if ok else "`a | x` with `a` the 0.2 choice of a {0.2, 0.3, 0.5} group and `x` independent at 0.5 is reported "
              "as exactly 0.2 (truth 0.6): the worlds that select the two unmentioned choices satisfy no `exactly one of {a}`")
+
+
+def r9(R):
+    """the connective fold of the lineage compiler visits every child, or stops on the absorbing constant of *its* operator"""
+    from lib import guards as G
+    prog = R.prog
+    R.rule("C08-R9", "a conjunction / disjunction is compiled from all its children: the loop of the lineage compiler that folds the children of an And / Or "
+                     "node into an accumulator (`acc = try_apply(acc, child, op)`) is left only when the children are exhausted or an error is "
+                     "propagated - or on a test that involves the operator as well as the accumulator (FALSE absorbs And, TRUE absorbs Or; the other "
+                     "constant is the *neutral* element: stopping on it drops the rest of the formula and reports a certified result for another one)")
+    b = R.body("C08-R9", "hybrid::compile_lineage_to_sdd_with_clock", crate="shared")
+    if b is None:
+        return
+    n = 0
+    # the compiler proper is a nested fn item (`fn compile`) of the entry point: bodies under its path count as well
+    scope = {x.key: x for x in prog.family(b.key)}
+    for y in prog.bodies.values():
+        if y.key.startswith(b.key + "::") and y.crate == "shared":
+            for x in prog.family(y.key):
+                scope[x.key] = x
+    for x in sorted(scope.values(), key=lambda v: v.key):
+        for c in x.calls():
+            if c.name() not in ("try_apply", "apply") or len(c.args) < 4:
+                continue
+            # a fold: the result is stored back into the first operand
+            if x.alias_root(c.args[1]) is None or x.alias_root(c.args[1]) != x.alias_root(c.dest["l"]) and not any(
+                    d[0] in ("call", "partial_call") and d[2] is c for d in x.defs().get(x.alias_root(c.args[1]), [])):
+                pass
+            loops = x.loops_containing(c.bb)
+            if not loops:
+                continue
+            h, body = min(loops, key=lambda hl: len(hl[1]))
+            # accumulator: the first operand is the value the result is stored back into
+            acc = x.alias_root(c.args[1])
+            n += 1
+            R.saw(x)
+            bad = []
+            for k in sorted(body):
+                for s2 in x.succ(k):
+                    if s2 in body:
+                        continue
+                    t = x.blocks[k]["term"]
+                    # iterator exhausted: the switch on `next()`
+                    cds = G.conditions(x, s2)
+                    if x.blocks[s2]["term"]["t"] in ("resume", "unreachable") or t["t"] in ("drop",) and False:
+                        continue
+                    via_next = any(cd.get("kind") == "variant" and cd.get("variant") == "None" and cd.get("bb") in body for cd in cds)
+                    via_err = any(cd.get("kind") == "variant" and cd.get("variant") in ("Break", "Err") and cd.get("bb") in body for cd in cds)
+                    cleanup = x.blocks[s2].get("cleanup") or t["t"] in ("call", "drop", "assert") and s2 == t.get("unwind")
+                    if via_next or via_err or cleanup:
+                        continue
+                    on_op = any(cd.get("bb") in body and ((cd.get("kind") == "call" and any("BoolOp" in x.local_ty(F.op_place(a)["l"]) for a in cd["call"].args if F.op_place(a)))
+                                                          or (cd.get("kind") == "variant" and "BoolOp" in str(cd.get("adt")))) for cd in cds)
+                    if not on_op:
+                        bad.append((k, s2))
+            R.ob("C08-R9", "all-children:%d" % n, "the fold over the children in %s is left only at the end, on an error, or on a test of the operator (other exits: %s)"
+                 % (x.short, bad), not bad, where=x.where(c.ln),
+                 detail=None if not bad else "`x OR NOT(x AND y)` AND z: the first child compiles to TRUE, the loop stops, z is never conjoined and the result 1.0 is "
+                 "published as exact")
+    R.floor("C08-R9", "connective folds in the lineage compiler", n, 1)
